@@ -234,6 +234,15 @@ class ProductDomain(Domain):
         self, n=None, d=None, params=Points.empty(), device="cpu"
     ):
         if n is not None:
+            if not self._is_constant and len(params) > 1:
+                # the rejection below keeps n points in total, not n for each
+                # parameter row: sample every row on its own
+                points = Points.empty()
+                for i in range(len(params)):
+                    points = points | self.sample_random_uniform(
+                        n=n, params=params[i,], device=device
+                    )
+                return points
             if self._is_constant:  # we use all sampled b values
                 n_, new_params = self._repeat_params(n, params)
                 b_points = self.domain_b.sample_random_uniform(
